@@ -23,6 +23,14 @@ CHECKS = {
    text="TLC enumerates (MC_Workflow over ClientSM) all 432 placements of client re-creation and server restart in the gaps of the documented workflow and checks the model never gets stuck and answers every search correctly; placements (a seeded sample per scheme in quick, all in thorough) are executed for each of the nine schemes with the real client Service and the real server over a loopback websocket; the delivered result of every search (present and absent keywords) is compared with the database and the whole run (outcomes, persisted flags, server state) is validated by TLC against Trace_ClientSM.",
    ref="5/C09", note="in-process client+server over loopback websocket; capacity parameters of SSE-1/SSE-2 fitted to the database; CLI processes not exercised in quick",
    technique="TLA+ workflow model, TLC-enumerated placements replayed end to end, TLC trace validation"),
+ "C18": dict(level="model_checking",
+   text="TLC checks 45 algebraic laws of the list-of-bits model BitVec.tla against integer arithmetic over every bit string of length <= 8 (pairs: second operand <= 5 quick / <= 8 thorough) and emits that domain. The driver then calls every public operation of toolkit.bits.Bitset and the halving helpers on exactly that domain, exhaustively (all values, all pairs, all indices, shift and cut amounts, all slices for small lengths), on the boundary values 0, 2^k-1, 2^k, 2^k+1 for k <= 300 and on random values up to length 300. Each of the 2.7e5 (quick) / 2.5e6 (thorough) calls is one trace record judged independently by TLC against the model (Trace_BitVec), refusals included.",
+   ref="5/C18", note="trusted: harness conversions int<->bit list; results observed through len(x)/int(x). Lengths 9..300 are sampled (boundary + random), not exhaustive. Out of domain: negative ints, non-Bitset operands, out-of-range indices.",
+   technique="TLA+ functional reference model; TLC-checked model laws on the exhaustive small domain; TLC trace validation of recorded calls of the real Bitset"),
+ "C17": dict(level="model_checking",
+   text="TLC proves the round-trip laws of Codec.tla on a small exhaustive domain (ParseBySize/ParseByCount(Partition(ids)) = ids, block count ceil(n/cap), equal block lengths and zero padding, split/join, int<->bytes, xor involution, hex and UTF-8 well-formedness; sizes 1..3, capacities 1..4, n <= 4/6, identifiers over {0,1} bytes not all zero) and exhibits the two excluded cases as counterexamples. The driver calls the real toolkit.database_utils / bytes_utils / list_utils functions over the property's ranges (sizes 1..40, capacities 1..70, n 0..300, ints to 512 bits, JSON database conversion and hex/int/raw/utf8 outputs, plus all small cases); each of the 4.2e4 (quick) / 2.7e5 (thorough) calls and real-code round trips is judged independently by TLC against Codec.tla (Trace_Codec).",
+   ref="5/C17", note="trusted: harness conversions (bytes<->lists, int<->bit lists, str<->code points), json.load. The large ranges are sampled; only the small domain is exhaustive. utf8 output judged relationally.",
+   technique="TLA+ functional reference model; TLC-checked round-trip laws with exhibited exclusions; TLC trace validation of recorded calls and real-code round trips"),
 }
 ALL = ["C%02d" % i for i in range(1, 21)]
 def main():
